@@ -35,7 +35,8 @@ LEVEL_NOTE = ("single-fault model (operation raises before any effect, rollback 
               "crashes mid-composite are out of scope (no journal exists); composites are random trees of the six "
               "basic change kinds over a small universe, not arbitrary refactoring output")
 DESIGN_REF = "DESIGN.md section 5, C10"
-REQUIRE = {"faults_injected": 50, "stops_injected": 50, "rollback_ops_observed": 10}
+REQUIRE = {"faults_injected": 50, "stops_injected": 50, "rollback_ops_observed": 10,
+           "failed_do_with_nonempty_redo_list": 20}
 
 
 def cases(tier, seed):
@@ -49,8 +50,9 @@ def _depth(spec):
     return 0 if spec[0] != "set" else 1 + max([_depth(c) for c in spec[2]] or [0])
 
 
-def _mk(root, tree, prelude, fail_at=None):
-    """Fresh project directory holding `tree`, with the prelude changes performed."""
+def _mk(root, tree, prelude, fail_at=None, undone=None):
+    """Fresh project directory holding `tree`, with the prelude changes performed; `undone` is one
+    more change that is performed and undone again, so that the redo list is not empty."""
     from rope.base.project import Project
     import shutil, os
     if os.path.exists(root):
@@ -64,6 +66,9 @@ def _mk(root, tree, prelude, fail_at=None):
     for spec in prelude:
         project.do(histgen.build(project, spec, t))
         t = histgen.apply(t, spec)
+    if undone is not None:
+        project.do(histgen.build(project, undone, t))
+        project.history.undo()
     return project, fs, t
 
 
@@ -98,6 +103,9 @@ def run_case(spec):
         c, t = histgen.gen_change(rnd, t, depth=1, allow_remove=False)
         prelude.append(c)
     tree_pre = t
+    undone = None
+    if rnd.random() < 0.5:     # a non-empty redo list: a failed do() must leave it alone too
+        undone, _ = histgen.gen_change(rnd, t, depth=1, allow_remove=False)
     mode = rnd.random()
     allow_remove = rnd.random() < 0.25
     natural = None
@@ -126,7 +134,7 @@ def run_case(spec):
     has_remove = "remove" in kinds
     feat = f"remove={int(has_remove)}"
     shape_base = [kinds, nleaves, _depth(comp)]
-    res.sample({"prelude": prelude, "composite": comp, "natural_failure_at": natural})
+    res.sample({"prelude": prelude, "undone_before": undone, "composite": comp, "natural_failure_at": natural})
 
     mark = [0]
     with core.Scratch() as tmp:
@@ -171,13 +179,14 @@ def run_case(spec):
                 res.outcome("rolled-back")
 
         # ---------------- dry run: count operations / notifications, get reference results
-        project, fs, tp = _mk(root, tree0, prelude)
+        project, fs, tp = _mk(root, tree0, prelude, undone=undone)
         assert tp == tree_pre
         pre_snap = treesnap.snap(root)
         if pre_snap != histgen.tree_as_snap(tree_pre):
             res.inconclusive("prelude did not produce the model tree")
             return res
         changes = histgen.build(project, comp, tree_pre)
+        dry_lists = _lists(project)
         obs = fsfault.StopAt(None)
         fs.arm(None)
         mark[0] = _REMOVE_UNDO_CALLS[0]
@@ -220,10 +229,10 @@ def run_case(spec):
             # natural failure without any injected fault: nothing may remain
             res.ev("natural_failures")
             check_after("do", "natural", natural, project, pre_snap,
-                        _lists(project), None, dry_exc, True)
+                        dry_lists, None, dry_exc, True)
             # single-fault model: inject only before the naturally failing step, so count the
             # operations / notifications of the prefix that precedes it
-            project, fs, _ = _mk(root, tree0, prelude)
+            project, fs, _ = _mk(root, tree0, prelude, undone=undone)
             prefix = histgen.build(project, ["set", "prefix", comp[2][:natural]], tree_pre)
             obs = fsfault.StopAt(None)
             fs.arm(None)
@@ -235,7 +244,7 @@ def run_case(spec):
         # ---------------- do: fault at every operation index and every notification index
         for fkind, count in (("oserror", n_do), ("stop", m_do)):
             for k in range(1, count + 1):
-                project, fs, _ = _mk(root, tree0, prelude)
+                project, fs, _ = _mk(root, tree0, prelude, undone=undone)
                 changes = histgen.build(project, comp, tree_pre)
                 before_lists = _lists(project)
                 obs = fsfault.StopAt(k if fkind == "stop" else None)
@@ -257,6 +266,8 @@ def run_case(spec):
                     res.ev("stops_injected")
                 if fired and nleaves >= 2 and k > 1:
                     res.shape(shape_base + ["do", fkind])
+                if fired and before_lists[1]:
+                    res.ev("failed_do_with_nonempty_redo_list")
                 check_after("do", fkind, k, project, pre_snap, before_lists,
                             post_snap if dry_exc is None else None, exc, fired)
 
@@ -265,7 +276,7 @@ def run_case(spec):
             for direction, ncount, mcount in (("undo", n_undo, m_undo), ("redo", n_redo, m_redo)):
                 for fkind, count in (("oserror", ncount), ("stop", mcount)):
                     for k in range(1, count + 1):
-                        project, fs, _ = _mk(root, tree0, prelude)
+                        project, fs, _ = _mk(root, tree0, prelude, undone=undone)
                         project.do(histgen.build(project, comp, tree_pre))
                         if direction == "redo":
                             project.history.undo()
